@@ -2,6 +2,7 @@ import S2T.Lemmas.Mail
 import S2T.Props.C07
 import S2T.Gen.Mail
 import S2T.Props.C16_Text
+import S2T.Props.C16_Date
 /-!
 # C16 — E-mail: headers, bodies, attachments and mailbox boundaries are exact
 
